@@ -1,6 +1,6 @@
 """C18 — snapshot operations honour the tree lock (schedules).
 
-Five kinds of cases, all evaluated by the Coq lock machine (CaseLock.run18) and by the code:
+Seven kinds of cases, all evaluated by the Coq lock machine (CaseLock.run18) and by the code:
 
   sched  arbitrary thread programs (Acq/Rel/Read/Write) under an arbitrary schedule, re-executed by REAL
          threads on the `_lock` object of a real nutree Tree, one event per scheduler tick
@@ -21,6 +21,14 @@ Five kinds of cases, all evaluated by the Coq lock machine (CaseLock.run18) and 
          tick enabled) and the versions the readers saw must be the machine's; oracle: no snapshot with an odd
          number of a writer's nodes, nothing executed without the lock.  (Not replayable bit for bit: the
          interleaving is the scheduler's.)
+
+  after  an operation RAISES (refused copy_to, unwritable path, failing predicate/mapper, ...), the caller
+         catches; then ANOTHER thread must be able to enter `with tree:` and run every operation with the
+         results it gave before, and the target tree's lock must be free ("depth returns to 0" on the
+         exceptional exit); the raising thread is kept alive meanwhile (thread idents are reused);
+  inv    the owner calls an operation INSIDE `with tree:` while a reader is ALREADY blocked on the tree lock
+         (signalled by a probe wrapper of the lock): the owner must complete (re-entrancy; no second lock
+         taken in the opposite order), then the reader completes on the committed state.
 
 Waiting for something that must NOT happen (0.12 s) can only fail to detect; waiting for something that
 must happen is bounded by 20 s (a false alarm needs a 20 s stall of a trivial operation).
@@ -147,6 +155,7 @@ class RecLock:
 
 
 _STATE = {"deadlock_seen": False}
+_FAILED: dict = {}      # digest(desc) -> first failing Case of a real-thread scenario (see Prop.run)
 
 
 def T(long):
@@ -855,6 +864,19 @@ class Prop:
         k = desc["k"]
         if k == "sched":
             return self.run_sched(desc)
+        # a real-thread scenario that FAILED may have left threads stuck for ever (holding a class-level lock,
+        # say): running it again in this process observes the debris, not the scenario.  The first failing
+        # verdict is kept for the rest of the process; `--replay` (a fresh process) runs it afresh.
+        key = H.digest(desc)
+        if key in _FAILED:
+            return _FAILED[key]
+        c = self._run_threads(desc)
+        if c.oracle_fail and k in ("park", "owner", "free", "after", "inv"):
+            _FAILED[key] = c
+        return c
+
+    def _run_threads(self, desc) -> Case:
+        k = desc["k"]
         tmp = tempfile.mkdtemp(prefix="c18_", dir=str(H.WORK))
         try:
             if k == "trace":
